@@ -870,7 +870,9 @@ def candidate_of(method, class_name):
 
 
 @contract(MA + "PythonMethodAnalyzer._check_method", props=["C12", "C19"],
-          types=dict(self=MethodAnalyzerT, method=PyNode, class_name=Str), modifies=["self.candidates"])
+          types=dict(self=MethodAnalyzerT, method=PyNode, class_name=Str), modifies=["self.candidates"],
+          no_selftest="the assumed callee _is_property_candidate reads analyzer fields (max_body_statements, exclude_*) that "
+                      "the record type does not model, so a natively generated `self` is incomplete")
 class MPCheckMethod:
     def requires(self, method, class_name):
         return isinstance(method, ast.FunctionDef)
